@@ -101,7 +101,7 @@ pub fn c08_dense_n3() {
 }
 
 // Through AdjacencyListWeighted<isize> (map model), 3 vertices.
-// @verif prop=C08 tier=quick fl=f2 role=dense/repr t=1200 mem=14
+// @verif prop=C08 tier=quick fl=f2 feat=map4 role=dense/repr t=1200 mem=14
 #[cfg_attr(kani, kani::proof)]
 #[cfg_attr(kani, kani::unwind(11))]
 pub fn c08_repr_n3() {
